@@ -65,6 +65,10 @@ func genC07(t *rapid.T) CaseC07 {
 	c.PAT.TSID = uint16(genBits(t, 16, "tsid"))
 	c.PAT.Version = rapid.IntRange(0, 31).Draw(t, "version")
 	c.PAT.CurrentNext = rapid.Bool().Draw(t, "cn")
+	if c.Carrier == "stream" {
+		// in a stream the subject is the applicable table: a reader may pass over a table that announces itself as "next"
+		c.PAT.CurrentNext = true
+	}
 	used := map[uint16]bool{}
 	netAt := -1
 	if n > 0 && rapid.IntRange(0, 3).Draw(t, "network") == 0 {
@@ -334,7 +338,7 @@ func TestC07Exhaustive(t *testing.T) {
 					continue
 				}
 				c := CaseC07{Carrier: carrier, Trailing: n % 4, Before: n % 6, After: n % 3, Other: clone(other[:]), Probe: []int{0, 0x1FFF, n}, CutTail: (n * 13) % 188}
-				c.PAT = ref.PAT{TSID: uint16(n * 257), Version: n % 32, CurrentNext: n%2 == 0, Entries: []ref.PATEntry{}}
+				c.PAT = ref.PAT{TSID: uint16(n * 257), Version: n % 32, CurrentNext: n%2 == 0 || carrier == "stream", Entries: []ref.PATEntry{}}
 				for i := 0; i < n; i++ {
 					e := ref.PATEntry{Program: uint16(i*37 + 1), PID: (i*611 + 0x101) & 0x1FFF}
 					if i == net {
